@@ -1,5 +1,5 @@
 (* C03 — parse fidelity: the value returned is exactly what the server sent. *)
-From TI Require Import Bytes Grammar Nom Interp InterpFacts Thm_Fuel Natives Proofs_C01 RoundTrip Spec RoundTripRules Proofs_RT.
+From TI Require Import Bytes Grammar Nom Interp InterpFacts Thm_Fuel Natives Proofs_C01 RoundTrip Spec RoundTripRules Proofs_RT Examples_RT.
 From TI.gen Require Import ImapGrammar.
 Local Open Scope N_scope.
 
@@ -151,3 +151,34 @@ Theorem c03_response_roundtrip : forall v w, enc_response v w -> forall rest, pa
 Proof. exact response_roundtrip. Qed.
 Check c03_response_roundtrip : forall v w, enc_response v w -> forall rest, parse (w ++ rest) = ROk rest v (nlen w).
 Print Assumptions c03_response_roundtrip.
+
+(* non-vacuity: the relation has non-trivial members of different kinds (Examples_RT.v builds them piece by piece: a LIST
+   with a classified and an extension attribute in odd letter case, an ID whose repeated field is overridden and whose
+   NIL-valued field is dropped, a FETCH with UID, BODY[1.2.HEADER]<0> as a literal whose content imitates protocol, and
+   FLAGS, a BODYSTRUCTURE with parameters, a known encoding, leading zeros and extension data) *)
+Theorem c03_relation_is_inhabited : exists v1 w1 v2 w2 v3 w3 v4 w4,
+  enc_response v1 w1 /\ enc_response v2 w2 /\ enc_response v3 w3 /\ enc_response v4 w4 /\
+  (exists a, v1 = VCon "Response::MailboxData" [VRec "MailboxDatum::List" a]) /\
+  v2 = VCon "Response::Id" [VSome (VList [VTuple [VBytes (bs "name"); VBytes (bs "b")]])] /\
+  (exists n a b c, v3 = VCon "Response::Fetch" [n; VList [a; VRec "AttributeValue::BodySection" b; c]]) /\
+  match v4 with
+  | VCon "Response::Fetch" [VNum 1; VList [VCon "AttributeValue::BodyStructure" [VRec "BodyStructure::Text" fs]]] => lookup "lines" fs = VNum 3
+  | _ => False
+  end.
+Proof.
+  destruct ex_list as (v1 & H1 & E1). destruct ex_id as (v2 & H2 & E2). destruct ex_fetch_section as (v3 & H3 & E3).
+  destruct ex_bodystructure as (v4 & H4 & E4).
+  do 8 eexists. split; [exact H1|]. split; [exact H2|]. split; [exact H3|]. split; [exact H4|].
+  split; [eexists; exact E1|]. split; [exact E2|]. split; [do 4 eexists; exact E3|].
+  exact E4.
+Qed.
+Check c03_relation_is_inhabited : exists v1 w1 v2 w2 v3 w3 v4 w4,
+  enc_response v1 w1 /\ enc_response v2 w2 /\ enc_response v3 w3 /\ enc_response v4 w4 /\
+  (exists a, v1 = VCon "Response::MailboxData" [VRec "MailboxDatum::List" a]) /\
+  v2 = VCon "Response::Id" [VSome (VList [VTuple [VBytes (bs "name"); VBytes (bs "b")]])] /\
+  (exists n a b c, v3 = VCon "Response::Fetch" [n; VList [a; VRec "AttributeValue::BodySection" b; c]]) /\
+  match v4 with
+  | VCon "Response::Fetch" [VNum 1; VList [VCon "AttributeValue::BodyStructure" [VRec "BodyStructure::Text" fs]]] => lookup "lines" fs = VNum 3
+  | _ => False
+  end.
+Print Assumptions c03_relation_is_inhabited.
